@@ -183,6 +183,7 @@ func shDescribe(in *shCase) string {
 
 // shJudge is the oracle of C02 (legacy == false) and C03 (legacy == true).
 func shJudge(c *mon.Ctx, in *shCase, legacy bool) {
+	ownerEditsDecodedEmpties(c)
 	P := "C02"
 	preName, preCall := "bt.(*Tx).CalcInputPreimage", (*bt.Tx).CalcInputPreimage
 	if legacy {
